@@ -1,11 +1,13 @@
-(* C17 - CLP(FD) labeling returns every solution exactly once (partial: see level note).
+(* C17 - CLP(FD) labeling returns every solution exactly once (partial: see level note; that no state
+   operation except == between domain variables loses a solution is proved at the end of this file).
    Proved: pruning keeps every solution -- the interval each propagator intersects an operand's
    domain with contains the value that operand takes in any solution within the current domains
    (signs arbitrary; saturating arithmetic under the "within isize" guard), and intersecting a
    well-formed domain with such an interval keeps the value; labeling enumerates each domain value
    once (C18_iter: strictly increasing enumeration of exactly the members). *)
-From Coq Require Import List ZArith Bool Arith Sorted.
-From PV Require Import Model.Term Model.Subst Model.Unify Model.FD Model.State Proofs.FDProofs Proofs.FDPropProofs.
+From Coq Require Import List ZArith Bool Arith Sorted Lia.
+From PV Require Import Model.Term Model.Subst Model.Unify Model.FD Model.State Model.Engine Proofs.FDProofs Proofs.FDPropProofs
+  Proofs.UnifyProofs Proofs.DiseqProofs Proofs.MonoProofs Proofs.DenProofs Proofs.FDDen Proofs.FDComp.
 Import ListNotations.
 Local Open Scope Z_scope.
 
@@ -55,6 +57,57 @@ Theorem C17_label_values : forall d, wf_fd d ->
 Proof. exact iter_rev_spec. Qed.
 
 (* the pinned bounds lost x * y = -2 over -2..=2 *)
+(* NO SOLUTION IS LOST by any propagation.
+   MstG th st : the valuation th solves st - substitution, every stored constraint of every kind, every
+   domain - where plusfd/minusfd/timesfd constraints carry the guard of the property (the three values
+   are within isize: the propagators use saturating arithmetic) and distinctfd is read on the list term
+   it was posted on.  sresCP Q st r : if r is a state, every solution of st that satisfies Q solves
+   it; if r is failure, no solution of st satisfies Q.  (Panic and out-of-fuel are separate outcomes.)
+   For EVERY constraint kind, any operands (ground, partly bound, unbound), any domains (negative,
+   mixed sign, sparse), all fuel, from any state with well-formed domains:
+     - posting a constraint keeps every solution of the state that satisfies the constraint - through
+       the pruning of all operand domains, the bindings made when a domain becomes one value, the
+       re-run of every other stored constraint those bindings trigger, and the dropping of decided
+       constraints - and fails only if there is none;
+     - posting a domain keeps every solution whose value for the operand lies in the domain;
+     - re-running the store after the substitution grew keeps every solution. *)
+Theorem C17_post_constraint_complete : forall c st, WFD st -> sresCP (fun th => choldG th c) st (post_constraint c st).
+Proof. exact post_constraint_C. Qed.
+Theorem C17_post_domain_complete : forall x d st, WFD st -> wf' d ->
+  sresCP (fun th => exists z, numv th x z /\ mem d z) st (post_domain x d st).
+Proof. exact post_domain_C. Qed.
+Theorem C17_rerun_complete : forall f st, WFD st -> sresCP QT st (run_constraints f st).
+Proof. exact run_constraints_C. Qed.
+(* readings of the two outcomes *)
+Theorem C17_success_keeps : forall c st st' th, WFD st -> post_constraint c st = SOk st' ->
+  MstG th st -> choldG th c -> MstG th st'.
+Proof. intros c st st' th W E. pose proof (post_constraint_C c st W) as H. rewrite E in H. exact (H th). Qed.
+Theorem C17_failure_means_none : forall c st th, WFD st -> post_constraint c st = SFail ->
+  MstG th st -> ~ choldG th c.
+Proof. intros c st th W E. pose proof (post_constraint_C c st W) as H. rewrite E in H. exact (H th). Qed.
+(* with C16: on success the solutions of the result are solutions of the state that satisfy the constraint
+   (soundness, FDDen) and conversely every such solution within the guard is kept (above) *)
+Theorem C17_with_C16 : forall c st st', WFD st -> post_constraint c st = SOk st' ->
+  (forall th, MstF th st' -> MstF th st /\ choldF th c) /\
+  (forall th, MstG th st -> choldG th c -> MstG th st').
+Proof.
+  intros c st st' W E. split.
+  - intros th HM. pose proof (post_constraint_FC c st W) as H. rewrite E in H. cbn in H. destruct H as [S HC].
+    split; [eapply MstF_SolF; eauto|apply HC, HM].
+  - intros th. eapply C17_success_keeps; eauto.
+Qed.
+(* non-vacuity: a state, a valuation that solves it and satisfies x * y = -2 with x, y in -2..2 *)
+Example C17_guard_satisfiable :
+  let st := mkState [] [] [(0%nat, Interval (-2) 2); (1%nat, Interval (-2) 2)] [] 2 0 in
+  let th := fun v : nat => match v with O => tnum (-1) | _ => tnum 2 end in
+  WFD st /\ MstG th st /\ choldG th (KTimes (TVar 0 false) (TVar 1 false) (tnum (-2))).
+Proof.
+  cbn. split; [intros x d [H|[H|[]]]; inversion H; subst; exact I|]. split.
+  - split; [intros x t []|]. split; [intros i c []|].
+    intros x d [H|[H|[]]]; inversion H; subst; [exists (-1)|exists 2]; split; try reflexivity; cbn; lia.
+  - exists (-1), 2, (-2). unfold numv, in_isize, isize_min, isize_max. cbn. repeat split; try reflexivity; lia.
+Qed.
+
 Example C17_times_negative :
   zmin4 (sat_mul (-2) (-2)) (sat_mul (-2) 2) (sat_mul 2 (-2)) (sat_mul 2 2) <= -2 <=
   zmax4 (sat_mul (-2) (-2)) (sat_mul (-2) 2) (sat_mul 2 (-2)) (sat_mul 2 2) /\
@@ -72,3 +125,9 @@ Print Assumptions C17_times_quotient_keeps.
 Print Assumptions C17_lte_keeps.
 Print Assumptions C17_intersect_keeps.
 Print Assumptions C17_label_values.
+Print Assumptions C17_post_constraint_complete.
+Print Assumptions C17_post_domain_complete.
+Print Assumptions C17_rerun_complete.
+Print Assumptions C17_success_keeps.
+Print Assumptions C17_failure_means_none.
+Print Assumptions C17_with_C16.
